@@ -88,6 +88,16 @@ def liblzma_alone(data):
         return ("err", b"", False, 0)
 
 
+def liblzma_auto(data):
+    """the auto-detecting decoder (what `xz -d` / lzma::decompress use): pickier about .lzma headers"""
+    try:
+        d = pylzma.LZMADecompressor(format=pylzma.FORMAT_AUTO)
+        out = d.decompress(data)
+        return ("ok", out)
+    except (pylzma.LZMAError, EOFError, MemoryError):
+        return ("err", b"")
+
+
 def liblzma_raw2(data, dict_size=1 << 26):
     try:
         d = pylzma.LZMADecompressor(format=pylzma.FORMAT_RAW,
@@ -356,10 +366,12 @@ def c04(run: Run):
                 us = {"hnone": "hdr", "skip": "up:%d" % len(data)}.get(opt, "hdr")
                 second.add("lzma us=%s in=%s" % (us, enc.hex()), oracle=exp_ok_out(data), tag="c04:dec:lzma")
                 if opt == "skip":
-                    ref = liblzma_alone(enc[:5] + len(data).to_bytes(8, "little") + enc[5:])
+                    full_file = enc[:5] + len(data).to_bytes(8, "little") + enc[5:]
                 else:
-                    ref = liblzma_alone(enc)
-                okref = ref[0] == "ok" and ref[1] == data
+                    full_file = enc
+                ref = liblzma_alone(full_file)
+                ref2 = liblzma_auto(full_file)
+                okref = ref[0] == "ok" and ref[1] == data and ref2[0] == "ok" and ref2[1] == data
             elif kind == "lzma2":
                 second.add("lzma2 in=%s" % enc.hex(), oracle=exp_ok_out(data), tag="c04:dec:lzma2")
                 ref = liblzma_raw2(enc)
@@ -470,6 +482,7 @@ def c05_inputs(run, n):
             pos = rng.below(len(base))
             inputs.append((base[:pos] + bytes([base[pos] ^ (1 << rng.below(8))]) + base[pos + 1:], "hdr", "bitflip"))
         inputs.append((base + rng.bytes(rng.pick([1, 2, 30])), "hdr", "trailing"))
+        inputs.append((base + rng.pick([b"\x00", b"\x00\x00\x00\x00\x00\x00", rng.bytes(25)]), "hdr", "trailing@%d" % len(base)))
         inputs.append((lzma_file(m, size=L + 1), "hdr", "size+1"))
         if L > 0:
             inputs.append((lzma_file(m, size=L - 1), "hdr", "size-1"))
@@ -494,6 +507,10 @@ def c05(run: Run):
             chs = [[hl] + c for c in compositions(len(data) - hl)] + [[k, len(data) - k] for k in range(1, hl)]
         else:
             chs = chunkings(rng, len(data), per)
+        if "@" in kind:
+            # cut exactly at the end of the valid stream: what follows arrives in later writes
+            b = int(kind.split("@")[1])
+            chs = chs[:3] + [[b, len(data) - b], [b, 1, len(data) - b - 1], [b - 1, 1, len(data) - b]]
         for parts in chs:
             ks.append(run.add("stream us=%s ops=%s" % (us, stream_ops(data, parts)), oracle=None,
                               tag="c05:stream:" + kind, nontrivial=len(parts) > 1))
@@ -625,6 +642,29 @@ def c16(run: Run):
         # over-long input in one go
         run.add("stream us=hdr ops=%s" % ";".join(["wa:" + (sized + rng.bytes(50)).hex(), "w:aa", "fin"]),
                 oracle=size_latch_oracle(m["out"]), tag="c16:overlong")
+    # (b2) the declared size falls strictly inside a copy: the output passes it without ever being equal
+    for m in [x for x in mats if x.get("cum")][:sizes(run.tier, 15, 120)]:
+        cum = set(int(c) for c in m["cum"].split(",") if c)
+        inside = [n for n in range(1, len(m["out"])) if n not in cum]
+        if not inside:
+            continue
+        n = rng.pick(inside)
+        data = lzma_header(m["lc"], m["lp"], m["pb"], m["dict"], n) + m["payload"] + bytes(40)
+        extra = [rng.bytes(30), rng.bytes(30), good[:60]]
+
+        def passed_oracle(res, meta, peak):
+            toks = [t for t in res.split(" ") if "=" not in t]
+            if any("panic" in t for t in toks) or v(res) in ("hang", "abort", "missing"):
+                return "panic/hang in a call sequence"
+            for t in toks[1:]:
+                if t.startswith("w") and not (t.startswith("w0@") or t.startswith("werr")):
+                    return "the declared size was passed (a copy straddles it) but a later write still consumed input: %s" % t
+            if "finok" in toks:
+                return "finish succeeded although the output passed the declared size"
+            return None
+        good = lzma_file(m)
+        run.add("stream us=hdr ops=%s" % ";".join(["wa:" + data.hex()] + ["w:" + e.hex() for e in extra] + ["fin"]),
+                oracle=passed_oracle, tag="c16:size-inside-copy")
     # (c) the moment the size is reached is visible when dict == declared size: from then on nothing is consumed
     wraps = core.gen_material("lzmawrap", run.seed + 16, sizes(run.tier, 12, 60))
     for m in wraps:
